@@ -15,7 +15,7 @@ import QExPy.Num
 import QExPy.FB
 import QExPy.Model.Expr
 import QExPy.Model.MCMat
-import QExPy.Generated.MC
+import QExPy.Generated.MCCorr
 
 namespace QExPy
 
@@ -108,7 +108,7 @@ def unitDiag (R : Mat α) : Mat α :=
     (`R` is the matrix of `get_correlation` values; the diagonal is set to one first) -/
 def factor (R0 : Mat α) : Mat α × Bool :=
   let R := unitDiag R0
-  -- the "no correlations present" shortcut, as TRANSLATED from the source (Generated/MC.lean);
+  -- the "no correlations present" shortcut, as TRANSLATED from the source (Generated/MCCorr.lean);
   -- for the unchanged code it is `offDiagAllZero` (Props/C02: `C02_shortcut_generated`)
   if Gen.mcNoCorrelation R then (identity R.length, false)
   else match chol R with
